@@ -569,6 +569,20 @@ func c17Plan(nvals, maxM int) [][]int {
 			plan = append(plan, args)
 		}
 	}
+	// ... and back down: a call with fewer arguments AFTER calls with more
+	// (missing arguments are zero values, not what an earlier call supplied)
+	for m := maxM - 1; m >= 0; m-- {
+		for _, vi := range []int{1, 3} {
+			args := make([]int, m)
+			for i := range args {
+				args[i] = (vi + i*5) % nvals
+			}
+			plan = append(plan, args)
+			if m == 0 {
+				break
+			}
+		}
+	}
 	return plan
 }
 
